@@ -3,6 +3,9 @@
 D1 ordering rules (sorted keys, declaration order, product order), D2 rejection guards dominate
 what they protect, D3 the cap is tested before anything of product size is materialised,
 D4 error classes.
+
+Locals are identified by role (what defines them), literals may live in module-level constants,
+guards may live in a helper that raises (one level), loops may be comprehensions.
 """
 from __future__ import annotations
 
@@ -13,6 +16,7 @@ from ..cfg import CFG, edges_guaranteeing, returns_only_through
 from ..engine import (
     AnalysisError,
     FuncNode,
+    Module,
     Repo,
     ancestors,
     assigned_value,
@@ -26,14 +30,19 @@ from ..engine import (
     terminates_in_raise,
     walk_no_nested,
 )
+from ..pat import find, find1, match, name_of
 from ..report import Report
 
 RS = "semantiva/execution/run_space.py"
 ERS = "expand_run_space"
+CONFIG_ERRORS = ("ConfigurationError", "PipelineConfigurationError")
+
+
+def _u(e: Optional[ast.AST]) -> str:
+    return ast.unparse(e) if e is not None else ""
 
 
 def _raises(body: List[ast.stmt]) -> Optional[str]:
-    """Name of the exception class raised at the end of *body* (None if it does not end in raise)."""
     if not terminates_in_raise(body):
         return None
     last = body[-1]
@@ -43,31 +52,41 @@ def _raises(body: List[ast.stmt]) -> Optional[str]:
     return "?"
 
 
-def _product_sites(fn: ast.AST) -> List[ast.AST]:
-    """Statements that materialise a Cartesian product: consumption of itertools.product into a
-    list, or a doubly nested loop that appends."""
-    out = []
-    for n in walk_no_nested(fn):
-        if isinstance(n, ast.Call) and call_name(n) in ("itertools.product", "product"):
-            out.append(stmt_of(n))
-        if isinstance(n, ast.For):
-            inner = [m for m in n.body if isinstance(m, ast.For)]
-            for m in inner:
-                if any(call_attr(c) == "append" for c in calls_in(m)) and not (isinstance(m.iter, ast.Call) and call_attr(m.iter) == "range"):
-                    it_outer, it_inner = dotted_name(n.iter), dotted_name(m.iter)
-                    if it_outer and it_inner and it_outer != it_inner and not isinstance(n.iter, ast.Call):
-                        out.append(n)
-    seen = []
-    for s in out:
-        if not any(s is t for t in seen):
-            seen.append(s)
-    return seen
+def module_consts(mod: Module) -> Dict[str, object]:
+    out = {}
+    for st in mod.tree.body:
+        if isinstance(st, (ast.Assign, ast.AnnAssign)) and isinstance(getattr(st, "value", None), ast.Constant):
+            t = st.targets[0] if isinstance(st, ast.Assign) else st.target
+            if isinstance(t, ast.Name):
+                out[t.id] = st.value.value
+    return out
+
+
+def const_of(e: Optional[ast.AST], consts: Dict[str, object]):
+    if isinstance(e, ast.Constant):
+        return e.value
+    if isinstance(e, ast.Name) and e.id in consts:
+        return consts[e.id]
+    return None
+
+
+def defs_of(fn: ast.AST, e: Optional[ast.AST]) -> List[ast.AST]:
+    if isinstance(e, ast.Name):
+        return assigned_value(fn, e.id) or [e]
+    return [e] if e is not None else []
+
+
+def names_in(e: Optional[ast.AST]) -> Set[str]:
+    return {x.id for x in ast.walk(e) if isinstance(x, ast.Name)} if e is not None else set()
 
 
 def run(repo: Repo, R: Report) -> None:
+    mod = repo.module(RS)
+    consts = module_consts(mod)
     fn = repo.func(RS, ERS)
     ee = repo.func(RS, "_expand_entries")
     ls = repo.func(RS, "_load_and_process_source")
+    spec = fn.args.args[0].arg
     R.assume(
         "itertools.product enumerates with the rightmost iterable varying fastest (stdlib contract)",
         "csv/json/yaml parsers return the file's rows in file order",
@@ -76,154 +95,331 @@ def run(repo: Repo, R: Report) -> None:
 
     # ------------------------------------------------------------------ D1 ordering
     r_ord = R.rule("C08-D1-ordering", "keys inside a block are taken in sorted order (one definition feeding both modes), blocks in declaration order, products via itertools.product over them in that order; context varies slower than source inside a combinatorial block", 7)
-    ok_defs = assigned_value(ee, "ordered_keys")
-    single = len(ok_defs) == 1 and isinstance(ok_defs[0], ast.Call) and call_attr(ok_defs[0]) == "sorted" and len(ok_defs[0].args) == 1 and dotted_name(ok_defs[0].args[0]) == ee.args.args[0].arg and not ok_defs[0].keywords
-    R.check(single, r_ord, RS, "_expand_entries", "ordered_keys = sorted(entries)", "keys are not iterated in plain sorted order (custom key function, reversed, or mapping order)", ee.lineno)
     entries = ee.args.args[0].arg
+    sk = find(ee, f"_K_ = sorted({entries})")
+    any_sorted = [c for c in calls_in(ee) if call_attr(c) == "sorted"]
+    ok = len(sk) == 1 and len(any_sorted) == 1
+    K = name_of(sk[0][1], "_K_") if sk else "__missing__"
+    R.check(ok, r_ord, RS, "_expand_entries", "keys = sorted(entries)", "keys are not iterated in plain sorted order (custom key function, reversed, or mapping order)", ee.lineno)
     prods = [c for c in calls_in(ee) if call_name(c) in ("itertools.product", "product")]
     ok = False
+    combo_src = None
     if len(prods) == 1 and len(prods[0].args) == 1 and isinstance(prods[0].args[0], ast.Starred):
-        arg = prods[0].args[0].value
-        vals = assigned_value(ee, arg.id) if isinstance(arg, ast.Name) else [arg]
-        ok = bool(vals) and all(isinstance(v, ast.ListComp) and dotted_name(v.generators[0].iter) == "ordered_keys" and not v.generators[0].ifs and ast.unparse(v.elt) == f"{entries}[{v.generators[0].target.id}]" for v in vals)
-    R.check(ok, r_ord, RS, "_expand_entries", "itertools.product(*[entries[k] for k in ordered_keys])", "the product is not taken over the value lists in sorted-key order", prods[0].lineno if prods else ee.lineno)
-    zips = [c for c in calls_in(ee) if call_attr(c) == "zip" and c.args and dotted_name(c.args[0]) == "ordered_keys"]
-    R.check(bool(zips), r_ord, RS, "_expand_entries", "dict(zip(ordered_keys, combo))", "product combinations are not paired with the sorted keys", ee.lineno)
-    bypos = [n for n in walk_no_nested(ee) if isinstance(n, ast.ListComp) and isinstance(n.elt, ast.DictComp)]
+        for v in defs_of(ee, prods[0].args[0].value):
+            if match(f"[{entries}[_k_] for _k_ in {K}]", v):
+                ok = True
+    R.check(ok, r_ord, RS, "_expand_entries", "itertools.product(*[entries[k] for k in keys])", "the product is not taken over the value lists in sorted-key order", prods[0].lineno if prods else ee.lineno)
+    ok = bool(find(ee, f"dict(zip({K}, _C_))", nested=True))
+    R.check(ok, r_ord, RS, "_expand_entries", "dict(zip(keys, combo))", "product combinations are not paired with the sorted keys", ee.lineno)
     ok = False
-    for lc in bypos:
-        dc = lc.elt
-        ok = ok or (dotted_name(dc.generators[0].iter) == "ordered_keys" and isinstance(lc.generators[0].iter, ast.Call) and call_attr(lc.generators[0].iter) == "range" and len(lc.generators[0].iter.args) == 1)
-    R.check(ok, r_ord, RS, "_expand_entries", "[{k: entries[k][i] for k in ordered_keys} for i in range(size)]", "by_position does not align positions 0..size-1 over the sorted keys", ee.lineno)
-    loops = [n for n in walk_no_nested(fn) if isinstance(n, ast.For) and "spec.blocks" in ast.unparse(n.iter)]
-    ok = len(loops) == 1 and (dotted_name(loops[0].iter) == "spec.blocks" or (isinstance(loops[0].iter, ast.Call) and call_attr(loops[0].iter) == "enumerate" and dotted_name(loops[0].iter.args[0]) == "spec.blocks"))
-    R.check(ok, r_ord, RS, ERS, norm(loops[0]) if loops else "for block in spec.blocks", "blocks are not processed in declaration order", loops[0].lineno if loops else fn.lineno)
-    apps = [c for c in calls_in(fn) if call_attr(c) == "append" and dotted_name(c.func.value) == "all_block_runs"]
-    R.check(len(apps) == 1 and bool(loops) and any(a is loops[0] for a in ancestors(apps[0])), r_ord, RS, ERS, "all_block_runs.append(block_runs)", "block results are not collected in declaration order", apps[0].lineno if apps else fn.lineno)
-    top = [c for c in calls_in(fn) if call_name(c) in ("itertools.product", "product")]
-    ok = len(top) == 1 and len(top[0].args) == 1 and isinstance(top[0].args[0], ast.Starred) and dotted_name(top[0].args[0].value) == "all_block_runs"
-    R.check(ok, r_ord, RS, ERS, "itertools.product(*all_block_runs)", "top-level combination is not the product of the block run lists in declaration order", top[0].lineno if top else fn.lineno)
+    for lc in [n for n in ast.walk(ee) if isinstance(n, ast.ListComp)]:
+        m = match(f"[{{_k_: {entries}[_k_][_i_] for _k_ in {K}}} for _i_ in range(_N_)]", lc)
+        if m:
+            ok = True
+    if not ok:
+        # explicit loop form
+        for lp in [n for n in ast.walk(ee) if isinstance(n, ast.For)]:
+            if match("range(_N_)", lp.iter) and isinstance(lp.target, ast.Name) and find(lp, f"{{_k_: {entries}[_k_][{lp.target.id}] for _k_ in {K}}}", nested=True):
+                ok = True
+    R.check(ok, r_ord, RS, "_expand_entries", "[{k: entries[k][i] for k in keys} for i in range(size)]", "by_position does not align positions 0..size-1 over the sorted keys", ee.lineno)
+    loops = [n for n in walk_no_nested(fn) if isinstance(n, ast.For) and (match(f"{spec}.blocks", n.iter) or match(f"enumerate({spec}.blocks)", n.iter))]
+    other = [n for n in walk_no_nested(fn) if isinstance(n, ast.For) and f"{spec}.blocks" in _u(n.iter) and n not in loops]
+    R.check(len(loops) == 1 and not other, r_ord, RS, ERS, norm(loops[0]) if loops else "for block in spec.blocks", "blocks are not processed in declaration order", loops[0].lineno if loops else fn.lineno)
+    bl = loops[0] if loops else (other[0] if other else None)
+    top = [c for c in ast.walk(fn) if isinstance(c, ast.Call) and call_name(c) in ("itertools.product", "product")]
+    ALL = None
+    if len(top) == 1 and len(top[0].args) == 1 and isinstance(top[0].args[0], ast.Starred) and isinstance(top[0].args[0].value, ast.Name):
+        ALL = top[0].args[0].value.id
+    R.check(ALL is not None, r_ord, RS, ERS, "itertools.product(*all_block_runs)", "top-level combination is not the product of the block run lists in declaration order", top[0].lineno if top else fn.lineno)
+    apps = [c for c in ast.walk(fn) if isinstance(c, ast.Call) and call_attr(c) == "append" and dotted_name(c.func.value) == ALL]
+    ok = len(apps) == 1 and bl is not None and any(a is bl for a in ancestors(apps[0])) and isinstance(apps[0].args[0], ast.Name)
+    BR = apps[0].args[0].id if ok else "__missing__"
+    R.check(ok, r_ord, RS, ERS, "all_block_runs.append(block_runs)", "block results are not collected in declaration order", apps[0].lineno if apps else fn.lineno)
+    # roles inside the block loop
+    block = None
+    if bl is not None:
+        block = bl.target.elts[-1].id if isinstance(bl.target, ast.Tuple) else getattr(bl.target, "id", None)
+    ctx_entries = src_entries = None
+    if bl is not None and block:
+        m = find1(bl, f"_CE_ = {{_k_: list(_v_) for (_k_, _v_) in {block}.context.items()}}") or find1(bl, f"_CE_ = _ANY_") if False else find1(bl, f"_CE_ = {{_k_: list(_v_) for (_k_, _v_) in {block}.context.items()}}")
+        if m:
+            ctx_entries = name_of(m[1], "_CE_")
+        m = find1(bl, f"(_SE_, _SM_) = _load_and_process_source({block}.source, _B_)")
+        if m:
+            src_entries = name_of(m[1], "_SE_")
+    if ctx_entries is None or src_entries is None:
+        raise AnalysisError("expand_run_space: per-block context/source entry mappings not recognised")
+
+    def expansions(entries_name: str) -> List[Tuple[ast.Call, Optional[str]]]:
+        out = []
+        for c in ast.walk(bl):
+            if isinstance(c, ast.Call) and call_attr(c) == "_expand_entries" and len(c.args) == 2 and dotted_name(c.args[0]) == entries_name:
+                tgt = None
+                st = stmt_of(c)
+                if isinstance(st, ast.Assign) and isinstance(st.targets[0], ast.Name):
+                    tgt = st.targets[0].id
+                out.append((c, tgt))
+        return out
+
+    ctx_exp, src_exp = expansions(ctx_entries), expansions(src_entries)
+    ctx_runs = {t for _c, t in ctx_exp if t}
+    src_runs = {t for _c, t in src_exp if t}
+
+    def block_mode_of(node: ast.AST) -> Optional[str]:
+        for a in ancestors(node):
+            if isinstance(a, ast.If):
+                m = match(f"{block}.mode == _M_", a.test)
+                if m and any(node is x for s in a.body for x in ast.walk(s)):
+                    v = const_of(m["_M_"], consts)
+                    if isinstance(v, str):
+                        return v
+        return None
+
     # ctx outer / src inner
-    nest = [n for n in ast.walk(fn) if isinstance(n, ast.For) and dotted_name(n.iter) == "context_runs" and any(isinstance(m, ast.For) and dotted_name(m.iter) == "source_runs" for m in n.body)]
-    R.check(len(nest) == 1, r_ord, RS, ERS, "for ctx in context_runs: for src in source_runs", "inside a combinatorial block the source no longer varies fastest", fn.lineno)
-    # index-aligned combine
-    idx_loops = [n for n in ast.walk(fn) if isinstance(n, ast.For) and isinstance(n.iter, ast.Call) and call_attr(n.iter) == "range" and any(isinstance(m, ast.For) and dotted_name(m.iter) == "all_block_runs" for m in n.body)]
-    R.check(len(idx_loops) == 1, r_ord, RS, ERS, "for idx in range(total): merge runs[idx] of every block", "combine=by_position does not merge aligned positions of all blocks", fn.lineno)
+    combos = []  # (site node, outer iter name, inner iter name)
+    for n in ast.walk(bl):
+        if isinstance(n, ast.For) and isinstance(n.iter, ast.Name):
+            for m in n.body:
+                if isinstance(m, ast.For) and isinstance(m.iter, ast.Name) and any(call_attr(c) == "append" for c in calls_in(m)):
+                    combos.append((n, n.iter.id, m.iter.id))
+        if isinstance(n, (ast.ListComp,)) and len(n.generators) == 2 and all(isinstance(g.iter, ast.Name) for g in n.generators):
+            combos.append((n, n.generators[0].iter.id, n.generators[1].iter.id))
+    cs = [c for c in combos if {c[1], c[2]} == (ctx_runs | src_runs) and len(ctx_runs) == 1 and len(src_runs) == 1]
+    ok = len(cs) == 1 and cs[0][1] in ctx_runs and cs[0][2] in src_runs
+    R.check(ok, r_ord, RS, ERS, "block combination: context outer, source inner", "inside a combinatorial block the source no longer varies fastest (or context/source are not combined pairwise)", cs[0][0].lineno if cs else fn.lineno)
+    # index-aligned combine over all blocks
+    ok = False
+    for n in ast.walk(fn):
+        if isinstance(n, ast.For) and match("range(_T_)", n.iter) and isinstance(n.target, ast.Name) and not any(a is bl for a in ancestors(n)):
+            inner = [m for m in ast.walk(n) if isinstance(m, (ast.For, ast.comprehension)) and dotted_name(m.iter) == ALL]
+            if inner and f"[{n.target.id}]" in _u(n):
+                ok = True
+        if isinstance(n, ast.ListComp) and not any(a is bl for a in ancestors(n)) and match("range(_T_)", n.generators[0].iter) and ALL in names_in(n.elt):
+            ok = True
+    R.check(ok, r_ord, RS, ERS, "combine=by_position: merge runs[idx] of every block for idx in range(total)", "combine=by_position does not merge aligned positions of all blocks", fn.lineno)
 
     # ------------------------------------------------------------------ D2 guards
     r_g = R.rule("C08-D2-rejection-guards", "duplicate keys (within a block, across blocks, after rename), missing selected columns and mismatched lengths (key, context-vs-source, block level) are each tested by a guard that raises the configuration error and dominates the merge it protects; the neutral [{}] stands in only for an absent side", 9)
 
-    def guard(fnode: ast.FunctionDef, label: str, pred, want_exc=("ConfigurationError", "PipelineConfigurationError")) -> Optional[ast.If]:
-        hits = [n for n in ast.walk(fnode) if isinstance(n, ast.If) and pred(n.test)]
-        good = [n for n in hits if _raises(n.body) in want_exc]
-        R.check(bool(good), r_g, RS, fnode.name, label, f"guard `{label}` is missing or no longer raises the configuration error", (hits[0].lineno if hits else fnode.lineno))
-        return good[0] if good else None
+    def mismatch_var(test: ast.AST) -> Optional[str]:
+        """`len(set(X)) > 1` / `!= 1` (possibly and-ed with X) -> X."""
+        for t in ([test] + (list(test.values) if isinstance(test, ast.BoolOp) and isinstance(test.op, ast.And) else [])):
+            m = match("len(set(_X_)) > 1", t) or match("len(set(_X_)) != 1", t)
+            if m and isinstance(m["_X_"], ast.Name):
+                if isinstance(test, ast.BoolOp) and not all(match("len(set(_X_)) > 1", v) or match("len(set(_X_)) != 1", v) or dotted_name(v) == m["_X_"].id for v in test.values):
+                    return None
+                return m["_X_"].id
+        return None
 
-    def len_set_mismatch(var: str):
-        def p(t: ast.AST) -> bool:
-            if isinstance(t, ast.BoolOp):
-                return any(p(v) for v in t.values) and isinstance(t.op, ast.And) and all(p(v) or dotted_name(v) == var for v in t.values)
-            return isinstance(t, ast.Compare) and len(t.ops) == 1 and isinstance(t.ops[0], (ast.Gt, ast.NotEq)) and isinstance(t.comparators[0], ast.Constant) and t.comparators[0].value == 1 and ast.unparse(t.left) == f"len(set({var}))"
-        return p
+    def mismatch_guards(f: ast.AST) -> List[Tuple[ast.If, str]]:
+        out = []
+        for n in ast.walk(f):
+            if isinstance(n, ast.If):
+                v = mismatch_var(n.test)
+                if v and _raises(n.body) in CONFIG_ERRORS:
+                    out.append((n, v))
+        return out
 
-    g1 = guard(ee, "by_position: len(set(lengths)) > 1", len_set_mismatch("lengths"))
-    g2 = guard(fn, "block: len(set(sizes)) != 1 (context vs source / blocks)", len_set_mismatch("sizes"))
-    n_sizes = len([n for n in ast.walk(fn) if isinstance(n, ast.If) and len_set_mismatch("sizes")(n.test) and _raises(n.body)])
-    R.check(n_sizes == 2, r_g, RS, ERS, "two size-mismatch guards (block level, combine level)", f"{n_sizes} size-mismatch guard(s) found instead of 2", fn.lineno)
-    guard(fn, "duplicate_keys (within block / across blocks)", lambda t: dotted_name(t) == "duplicate_keys")
-    n_dup = len([n for n in ast.walk(fn) if isinstance(n, ast.If) and dotted_name(n.test) == "duplicate_keys" and _raises(n.body)])
-    R.check(n_dup == 2, r_g, RS, ERS, "two duplicate-key guards", f"{n_dup} duplicate-key guard(s) found instead of 2", fn.lineno)
-    dk = assigned_value(fn, "duplicate_keys")
-    ok = len(dk) == 2 and all(isinstance(v, ast.Call) and call_attr(v) == "intersection" for v in dk) and any("seen_keys" in ast.unparse(v) for v in dk) and any("context_entries" in ast.unparse(v) and "source_entries" in ast.unparse(v) for v in dk)
-    R.check(ok, r_g, RS, ERS, "duplicate_keys = intersections (context∩source, seen∩current)", "duplicate detection no longer compares the right key sets", fn.lineno)
-    upd = [c for c in calls_in(fn) if call_attr(c) == "update" and dotted_name(c.func.value) == "seen_keys"]
-    ck = assigned_value(fn, "current_keys")
-    R.check(bool(upd) and bool(ck) and "context_entries" in ast.unparse(ck[0]) and "source_entries" in ast.unparse(ck[0]), r_g, RS, ERS, "seen_keys.update(context ∪ source keys)", "keys of a block are not all remembered for the cross-block duplicate test", fn.lineno)
-    guard(ls, "rename collision: target in renamed", lambda t: isinstance(t, ast.Compare) and isinstance(t.ops[0], ast.In) and dotted_name(t.comparators[0]) == "renamed")
-    guard(ls, "select: missing columns", lambda t: dotted_name(t) == "missing")
-    # guard dominance of the index-based expansions
-    for fnode, var, gnode in ((ee, "lengths", g1),):
-        if gnode is None:
+    mg_ee = mismatch_guards(ee)
+    ok = False
+    for gnode, v in mg_ee:
+        if any(match(f"[len({entries}[_k_]) for _k_ in _K_]", d) for d in assigned_value(ee, v)):
+            ok = True
+    R.check(ok, r_g, RS, "_expand_entries", "by_position: unequal list lengths raise", "the equal-length guard of positional expansion is missing or no longer raises the configuration error", ee.lineno)
+    mg_fn = mismatch_guards(fn)
+    in_block = [g for g in mg_fn if bl is not None and any(a is bl for a in ancestors(g[0]))]
+    after = [g for g in mg_fn if g not in in_block]
+    ok_b = any(all(isinstance(d, ast.ListComp) and "len(" in _u(d.elt) for d in assigned_value(fn, v)) for _g, v in in_block)
+    ok_a = any(any(match(f"[len(_r_) for _r_ in {ALL}]", d) for d in assigned_value(fn, v)) for _g, v in after)
+    R.check(ok_b, r_g, RS, ERS, "block: context vs source run counts must match", "the context-vs-source size guard of a by_position block is missing or no longer raises", fn.lineno)
+    R.check(ok_a, r_g, RS, ERS, "combine=by_position: block sizes must match", "the block-size guard of combine=by_position is missing or no longer raises", fn.lineno)
+    # duplicate keys
+    dup_ifs = []
+    for n in ast.walk(fn):
+        if isinstance(n, ast.If) and isinstance(n.test, ast.Name) and _raises(n.body) in CONFIG_ERRORS:
+            for d in reaching_values(fn, n.test.id, n):
+                if isinstance(d, ast.Call) and call_attr(d) == "intersection":
+                    dup_ifs.append((n, d))
+    within = [d for _n, d in dup_ifs if {ctx_entries, src_entries} <= names_in(d)]
+    seen_name = None
+    across = []
+    for _n, d in dup_ifs:
+        if d in within:
             continue
-        g = CFG(fnode, may_raise=lambda p: set())
-        targets = [n.id for n in g.nodes if n.ast is not None and n.kind == "stmt" and isinstance(n.ast, ast.Return) and any(isinstance(x, ast.ListComp) and isinstance(x.elt, ast.DictComp) for x in ast.walk(n.ast))]
-        holds, path, guards_n = returns_only_through(g, lambda e, v=var: (False if len_set_mismatch(v)(e) else None), targets=targets)
-        R.check(holds and guards_n > 0 and bool(targets), r_g, RS, fnode.name, "equal-length test dominates the positional expansion", "positions are aligned without the equal-length test having passed", fnode.lineno, path)
+        recv = d.func.value
+        if isinstance(recv, ast.Name):
+            across.append(d)
+            seen_name = recv.id
+    R.check(len(within) >= 1, r_g, RS, ERS, "duplicate keys within a block (context ∩ source) raise", "a key present both inline and in the block's source is no longer rejected", fn.lineno)
+    ok = len(across) >= 1 and seen_name is not None
+    if ok:
+        cur = across[0].args[0] if across[0].args else None
+        cur_defs = defs_of(fn, cur)
+        ok = any({ctx_entries, src_entries} <= names_in(v) for v in cur_defs) and bool(find(fn, f"{seen_name}.update(_C_)", nested=True))
+    R.check(ok, r_g, RS, ERS, "duplicate keys across blocks (seen ∩ current) raise; seen.update(current)", "a key declared in two blocks is no longer rejected (or keys are not all remembered)", fn.lineno)
+    # rename collision / select missing
+    ok = any(isinstance(n, ast.If) and match("_T_ in _R_", n.test) and _raises(n.body) in CONFIG_ERRORS and bool(find(ls, f"{_u(match('_T_ in _R_', n.test)['_R_'])}[{_u(match('_T_ in _R_', n.test)['_T_'])}] = _V_", nested=True)) for n in ast.walk(ls))
+    R.check(ok, r_g, RS, "_load_and_process_source", "rename collision: target already present raises", "two columns renamed onto the same key (or onto an existing one) are no longer rejected", ls.lineno)
+    ok = False
+    for n in ast.walk(ls):
+        if isinstance(n, ast.If) and isinstance(n.test, ast.Name) and _raises(n.body) in CONFIG_ERRORS:
+            if any(call_attr(c) == "append" and dotted_name(c.func.value) == n.test.id for c in calls_in(ls)):
+                ok = True
+    R.check(ok, r_g, RS, "_load_and_process_source", "select: missing columns raise", "selecting a column the source does not have is no longer rejected", ls.lineno)
+    # the rename collision test covers every column (no early skip before it)
+    for lp in [n for n in ast.walk(ls) if isinstance(n, ast.For) and "items()" in _u(n.iter)]:
+        coll = [n for n in ast.walk(lp) if isinstance(n, ast.If) and match("_T_ in _R_", n.test) and _raises(n.body) in CONFIG_ERRORS]
+        if coll:
+            early = [x for x in ast.walk(lp) if isinstance(x, ast.Continue)]
+            R.check(not early, r_g, RS, "_load_and_process_source", "every column passes the collision test", "some columns skip the rename-collision test (a rename onto an un-renamed column is accepted and silently drops data)", lp.lineno)
+    # guard dominance of the positional expansion
+    g1 = CFG(ee, may_raise=lambda p: set())
+    lens_vars = {v for _g, v in mg_ee}
+    targets = [n.id for n in g1.nodes if n.ast is not None and n.kind == "stmt" and any(isinstance(x, (ast.ListComp, ast.DictComp)) and f"range(" in _u(x) and "][" in _u(x) for x in ast.walk(n.ast))]
+    holds, path, guards_n = returns_only_through(g1, lambda e: (False if mismatch_var(e) in lens_vars and mismatch_var(e) else None), targets=targets)
+    R.check(holds and guards_n > 0 and bool(targets), r_g, RS, "_expand_entries", "equal-length test dominates the positional expansion", "positions are aligned without the equal-length test having passed", ee.lineno, path)
     # neutral element only for an absent side
     neutral_bad = []
     neutral_ok = 0
     for n in ast.walk(fn):
-        if isinstance(n, ast.BoolOp) and isinstance(n.op, ast.Or) and any(isinstance(v, ast.List) and len(v.elts) == 1 and isinstance(v.elts[0], ast.Dict) and not v.elts[0].keys for v in n.values):
+        is_neutral = lambda v: isinstance(v, ast.List) and len(v.elts) == 1 and isinstance(v.elts[0], ast.Dict) and not v.elts[0].keys
+        if isinstance(n, ast.BoolOp) and isinstance(n.op, ast.Or) and any(is_neutral(v) for v in n.values):
             if any(isinstance(v, ast.Call) and call_attr(v) == "_expand_entries" for v in n.values):
                 neutral_bad.append(n)
-        if isinstance(n, ast.IfExp) and isinstance(n.orelse, ast.List) and len(n.orelse.elts) == 1 and isinstance(n.orelse.elts[0], ast.Dict):
-            ent = n.body.args[0] if isinstance(n.body, ast.Call) and n.body.args else None
-            if dotted_name(n.test) == dotted_name(ent) and dotted_name(n.test) in ("context_entries", "source_entries"):
+        if isinstance(n, ast.IfExp) and (is_neutral(n.orelse) or is_neutral(n.body)):
+            exp_side = n.body if is_neutral(n.orelse) else n.orelse
+            ent = exp_side.args[0] if isinstance(exp_side, ast.Call) and exp_side.args else None
+            test_name = dotted_name(n.test) if is_neutral(n.orelse) else (dotted_name(n.test.operand) if isinstance(n.test, ast.UnaryOp) and isinstance(n.test.op, ast.Not) else None)
+            if test_name is not None and test_name == dotted_name(ent) and test_name in (ctx_entries, src_entries):
                 neutral_ok += 1
             else:
                 neutral_bad.append(n)
+    # statement form: if entries: runs = expand(...) else: runs = [{}]
+    for n in ast.walk(fn):
+        if isinstance(n, ast.If) and dotted_name(n.test) in (ctx_entries, src_entries) and n.orelse:
+            if any(isinstance(s, ast.Assign) and isinstance(s.value, ast.List) and _u(s.value) == "[{}]" for s in n.orelse):
+                neutral_ok += 1
     for b in neutral_bad:
-        R.violation(r_g, RS, ERS, norm(stmt_of(b))[:120], "the neutral run [{}] replaces an *empty expansion* (e.g. a key with an empty value list) instead of an *absent* side: runs appear that lack declared keys and empty blocks no longer yield zero runs", b.lineno)
-    R.check(neutral_ok == 2 or bool(neutral_bad), r_g, RS, ERS, "[{}] only when the entries mapping is empty (context, source)", "neutral element selection not recognised", fn.lineno) if not neutral_bad else None
+        R.violation(r_g, RS, ERS, "neutral [{}] replaces an empty expansion", "the neutral run [{}] replaces an *empty expansion* (e.g. a key with an empty value list) instead of an *absent* side: runs appear that lack declared keys and empty blocks no longer yield zero runs", b.lineno)
+    if not neutral_bad:
+        R.check(neutral_ok == 2, r_g, RS, ERS, "[{}] only when the entries mapping is empty (context, source)", "neutral element selection not recognised", fn.lineno)
 
     # ------------------------------------------------------------------ D3 cap before materialisation
-    r_cap = R.rule("C08-D3-cap-before-materialisation", "every statement that materialises something of product size is dominated by a test `size > spec.max_runs` (size computed from len()s only) whose true branch raises RunSpaceMaxRunsExceededError", 4)
+    r_cap = R.rule("C08-D3-cap-before-materialisation", "every statement that materialises something of product size is dominated by a test `size > spec.max_runs` (size computed from len()s only, directly or in a helper that raises) whose failing branch raises RunSpaceMaxRunsExceededError", 4)
     g = CFG(fn, may_raise=lambda p: set())
+    materialised = {dotted_name(r.value.elts[0]) for r in walk_no_nested(fn) if isinstance(r, ast.Return) and isinstance(r.value, ast.Tuple) and r.value.elts} | {BR}
 
-    def cap_atom(e: ast.AST) -> Optional[bool]:
-        # atom = "within cap"; the test `total > spec.max_runs` is its negation
-        if isinstance(e, ast.Compare) and len(e.ops) == 1 and isinstance(e.ops[0], ast.Gt) and dotted_name(e.comparators[0]) == "spec.max_runs":
-            left = e.left
-            vals = assigned_value(fn, left.id) if isinstance(left, ast.Name) else [left]
-            # the size must not be the length of an already materialised combination
-            if any(isinstance(c, ast.Call) and call_attr(c) == "len" and dotted_name(c.args[0]) in ("combined_runs", "block_runs") for v in vals for c in ast.walk(v)):
-                return None
-            return False
-        if isinstance(e, ast.Compare) and len(e.ops) == 1 and isinstance(e.ops[0], ast.LtE) and dotted_name(e.comparators[0]) == "spec.max_runs":
-            return True
-        return None
+    def size_ok(f: ast.AST, left: ast.AST) -> bool:
+        for v in defs_of(f, left):
+            if any(isinstance(c, ast.Call) and call_attr(c) == "len" and dotted_name(c.args[0]) in materialised for c in ast.walk(v)):
+                return False
+        return True
 
+    def cap_atom_in(f: ast.AST, cap_expr: str):
+        def atom(e: ast.AST) -> Optional[bool]:
+            m = match(f"_S_ > {cap_expr}", e)
+            if m and size_ok(f, m["_S_"]):
+                return False  # the test is the negation of "within cap"
+            m = match(f"_S_ <= {cap_expr}", e)
+            if m and size_ok(f, m["_S_"]):
+                return True
+            return None
+        return atom
+
+    cap_atom = cap_atom_in(fn, f"{spec}.max_runs")
     cap_ifs = [n for n in g.nodes if n.kind == "if" and n.part is not None and edges_guaranteeing(n.part, cap_atom)]
+    n_cap = 0
     for n in cap_ifs:
         exc = _raises(n.ast.body)
-        R.check(exc == "RunSpaceMaxRunsExceededError", r_cap, RS, ERS, norm(n.ast), f"exceeding the cap raises {exc} instead of the max-runs error", n.line)
+        n_cap += 1
+        R.check(exc == "RunSpaceMaxRunsExceededError", r_cap, RS, ERS, "cap test raises the max-runs error", f"exceeding the cap raises {exc} instead of the max-runs error", n.line)
         if exc:
             rc = n.ast.body[-1].exc
-            ok = isinstance(rc, ast.Call) and dotted_name(kwarg(rc, "actual_runs")) == dotted_name(n.part.left) and dotted_name(kwarg(rc, "max_runs")) == "spec.max_runs"
-            R.check(ok, r_cap, RS, ERS, norm(n.ast) + " [payload]", "the max-runs error does not carry the projected size and the limit", n.line)
-    sites = _product_sites(fn)
-    # calls of _expand_entries in combinatorial mode materialise a product inside the callee
-    for c in calls_in(fn):
-        if call_attr(c) == "_expand_entries" and len(c.args) == 2:
-            m = c.args[1]
-            if (isinstance(m, ast.Constant) and m.value == "combinatorial") or isinstance(m, ast.Name):
-                sites.append(stmt_of(c))
-    uniq: List[ast.AST] = []
-    for s in sites:
-        if not any(s is t for t in uniq):
-            uniq.append(s)
-    if len(uniq) < 3:
-        raise AnalysisError(f"expand_run_space: only {len(uniq)} product-materialisation site(s) recognised (3+ confirmed by reading)")
+            m = match(f"_S_ > {spec}.max_runs", n.part)
+            ok = isinstance(rc, ast.Call) and m is not None and _u(kwarg(rc, "actual_runs")) == _u(m["_S_"]) and _u(kwarg(rc, "max_runs")) == f"{spec}.max_runs"
+            R.check(ok, r_cap, RS, ERS, "max-runs error carries projected size and limit", "the max-runs error does not carry the projected size and the limit", n.line)
+    # helper functions that raise unless within cap: _helper(size, spec)
+    helper_calls = []
+    for hqn, hf in [(q, n) for q, n in mod.defs.items() if isinstance(n, FuncNode) and "." not in q and n is not fn]:
+        params = [a.arg for a in hf.args.args]
+        for n in walk_no_nested(hf):
+            if isinstance(n, ast.If) and _raises(n.body) == "RunSpaceMaxRunsExceededError":
+                m = match("_S_ > _C_", n.test)
+                if m and isinstance(m["_S_"], ast.Name) and m["_S_"].id in params and "max_runs" in _u(m["_C_"]) and hf.body.index(n) <= 1:
+                    helper_calls.append((hf.name, params.index(m["_S_"].id)))
     blocked = set()
     for n in cap_ifs:
         for e in edges_guaranteeing(n.part, cap_atom):
             blocked.add((n.id, e))
+    for n in g.nodes:
+        if n.ast is not None and n.kind == "stmt":
+            for c in calls_in(n.ast):
+                for hname, idx in helper_calls:
+                    if call_attr(c) == hname and len(c.args) > idx and size_ok(fn, c.args[idx]):
+                        n_cap += 1
+                        for _t, lab in g.succ[n.id]:
+                            blocked.add((n.id, lab))
+                        R.ok(r_cap, RS, ERS, f"cap enforced through helper {hname}()", "", c.lineno)
     seen = g.reach([g.entry], blocked_edges=blocked)
-    for s in uniq:
+    # materialisation sites by role
+    sites: List[Tuple[str, ast.AST]] = []
+    for c, _t in ctx_exp:
+        mode = const_of(c.args[1], consts)
+        if mode != "by_position":
+            sites.append((f"block expansion: context side ({block_mode_of(c) or '?'} block)", stmt_of(c)))
+    for c, _t in src_exp:
+        mode = const_of(c.args[1], consts)
+        if mode != "by_position":
+            sites.append((f"block expansion: source side ({block_mode_of(c) or '?'} block)", stmt_of(c)))
+    for n, a, b in cs:
+        sites.append(("block combination: context x source", n if isinstance(n, ast.stmt) else stmt_of(n)))
+    for c in top:
+        sites.append(("top-level combination: product of all blocks", stmt_of(c)))
+    if len(sites) < 4 and not R.violations():
+        raise AnalysisError(f"expand_run_space: only {len(sites)} product-materialisation site(s) recognised")
+    for label, s in sites:
         ids = g.nodes_for(s)
+        if not ids:
+            # comprehension inside an assignment etc.: use the enclosing statement
+            ids = g.nodes_for(stmt_of(s))
         if not ids:
             continue
         unguarded = ids[0] in seen
-        R.check(not unguarded, r_cap, RS, ERS, norm(s)[:110], "a structure of product size is built before (or without) the max_runs test: a specification far larger than the cap is fully materialised first", s.lineno, g.path_to(seen, ids[0])[-6:] if unguarded else None)
-    # the size used by the top-level test is the product / common size of all blocks
-    tot = [n for n in ast.walk(fn) if isinstance(n, ast.AugAssign) and isinstance(n.op, ast.Mult) and dotted_name(n.target) == "total"]
-    ok = len(tot) == 1 and isinstance(tot[0].value, ast.Call) and call_attr(tot[0].value) == "len" and any(isinstance(a, ast.For) and dotted_name(a.iter) == "all_block_runs" for a in ancestors(tot[0]))
-    R.check(ok or not cap_ifs, r_cap, RS, ERS, "total = product of len(runs) over all blocks", "the projected size is not the product of all block sizes", fn.lineno)
+        R.check(not unguarded, r_cap, RS, ERS, label, "a structure of product size is built before (or without) the max_runs test: a specification far larger than the cap is fully materialised first", s.lineno, g.path_to(seen, ids[0])[-6:] if unguarded else None)
+    if n_cap == 0:
+        R.violation(r_cap, RS, ERS, "cap test", "no `size > spec.max_runs` test on a projected size exists", fn.lineno)
+    # the size used for the product is the product of all block sizes
+    ok = False
+    for n in ast.walk(fn):
+        if isinstance(n, ast.AugAssign) and isinstance(n.op, ast.Mult) and match("len(_r_)", n.value) and any(isinstance(a, ast.For) and dotted_name(a.iter) == ALL for a in ancestors(n)):
+            ok = True
+        if isinstance(n, ast.Call) and call_name(n) in ("math.prod", "prod") and ALL in names_in(n):
+            ok = True
+    R.check(ok or n_cap == 0, r_cap, RS, ERS, "projected size = product of len(runs) over all blocks", "the projected size is not the product of all block sizes", fn.lineno)
 
     # ------------------------------------------------------------------ D4 error classes
     r_err = R.rule("C08-D4-error-classes", "expansion raises only the documented configuration error and max-runs error", 5)
-    for f in (fn, ee, ls, repo.func(RS, "_load_source_file")):
+    for f in [n for q, n in mod.defs.items() if isinstance(n, FuncNode) and "." not in q and n.name != "_coerce_scalar"]:
         for n in walk_no_nested(f):
             if isinstance(n, ast.Raise) and n.exc is not None:
                 t = n.exc.func if isinstance(n.exc, ast.Call) else n.exc
-                R.check(dotted_name(t) in ("ConfigurationError", "RunSpaceMaxRunsExceededError"), r_err, RS, f.name, norm(n)[:90], "an undocumented exception class is raised for an invalid run space", n.lineno)
+                R.check(dotted_name(t) in ("ConfigurationError", "RunSpaceMaxRunsExceededError"), r_err, RS, f.name, f"raise {dotted_name(t)}", "an undocumented exception class is raised for an invalid run space", n.lineno)
+    # the cap value itself comes from the configuration unchanged
+    from ..engine import Repo as _R  # noqa: F401
+    lp = repo.maybe_func("semantiva/configurations/load_pipeline_from_yaml.py", "_parse_run_space_block")
+    if lp is not None:
+        r_cfg = R.rule("C08-D3-cap-value", "the max_runs value of the block is taken as given (an explicit 0 is not replaced by the default)", 1)
+        bad = [n for n in ast.walk(lp) if isinstance(n, ast.BoolOp) and isinstance(n.op, ast.Or) and "max_runs" in _u(n.values[0])]
+        gets = [c for c in ast.walk(lp) if isinstance(c, ast.Call) and call_attr(c) == "get" and c.args and isinstance(c.args[0], ast.Constant) and c.args[0].value == "max_runs"]
+        R.check(bool(gets) and not bad, r_cfg, "semantiva/configurations/load_pipeline_from_yaml.py", "_parse_run_space_block", "max_runs = block.get('max_runs', <default>)", "a falsy max_runs (0) is replaced by the default: a cap of 0 no longer rejects anything", lp.lineno)
+
+
+def reaching_values(fn: ast.AST, name: str, at: ast.AST) -> List[ast.AST]:
+    """Right-hand sides of the assignments to *name* that textually precede *at* (nearest first) in the
+    same or an enclosing block; falls back to all assignments."""
+    vals = []
+    for n in ast.walk(fn):
+        if isinstance(n, ast.Assign) and any(isinstance(t, ast.Name) and t.id == name for t in n.targets) and n.lineno <= getattr(at, "lineno", 0):
+            vals.append(n)
+    vals.sort(key=lambda n: -n.lineno)
+    return [vals[0].value] if vals else assigned_value(fn, name)
